@@ -104,7 +104,8 @@ CHECKS = {
         "bounds": {}, "assumptions": [],
     },
     "C14": {
-        "runs": [dict(ACTION, entries=["H14Gate", "H14Deep", "H14Alias"], limits={"max_instrs": 20000000, "max_decisions": 2000})],
+        "runs": [dict(pkg="./pkg/lint/rules", files=["pkg/lint/rules/h_c14_lint.go"], entries=["H14Lint"]),
+                 dict(ACTION, entries=["H14Gate", "H14Deep", "H14Alias"], limits={"max_instrs": 20000000, "max_decisions": 2000})],
         "bounds": {}, "assumptions": [],
     },
     "C09": {
